@@ -35,6 +35,11 @@ func GenCatalogue() []GenLayout {
 		tl(VideoRep("V300", 90000, 3000, alt)),
 		tl(AudioRep("A48", 1024, AudioDursFollowing(alt, 90000, 48000, 1024, 0))))
 
+	avgf := FrameDurs(3000, 60, 30, 90, 60) // 2 s, 1 s, 3 s, 2 s
+	add("ok", "varying durations 2 s / 1 s / 3 s / 2 s whose first segment has exactly the mean duration, $Time$", "g_avgfirst_tl",
+		tl(VideoRep("V300", 90000, 3000, avgf)),
+		tl(AudioRep("A48", 1024, AudioDursFollowing(avgf, 90000, 48000, 1024, 0))))
+
 	add("ok", "7 irregular segments, timescale 12800 (25 fps); audio on its own 3-segment grid", "g_irr7_12800",
 		VideoRep("V1", 12800, 512, irr),
 		AudioRep("A48", 1024, FrameDurs(1024, 200, 200, 163)))
